@@ -74,6 +74,8 @@ class Snapper:
 def record_abs(tid, inst, cf, ops, unique, want_aux):
     """run one history on the real BaseMatcher (integer tables) and record everything LatticeTrace needs"""
     cf = dict(cf)
+    cf.setdefault('slack', 0)
+    cf.setdefault('tables', True)
     m = absm.mk_matcher(inst, cf)
     sn = Snapper(m)
     events = []
@@ -98,7 +100,8 @@ def record_abs(tid, inst, cf, ops, unique, want_aux):
             aux['oneshot'] = aux_of(inst, cur, n)
         ev = {'op': op, 'arg': arg, 'w': W, 'unique': unique, 'exc': o['exc'], 'states': o['states'] or [],
               'idx': o['idx'], 'early': o['early'], 'path': o['path'], 'lat': o['lat'], 'now': o['now'],
-              'onlynodes': o['onlynodes'], 'onlynodes_exc': o['onlynodes_exc'], 'snaps': sn.take(), 'aux': aux}
+              'onlynodes': o['onlynodes'], 'onlynodes_exc': o['onlynodes_exc'], 'snaps': sn.take(), 'aux': aux,
+              'dangling': o.get('dangling', [])}
         if o['states'] is None and not o['exc']:
             ev['exc'] = 'match returned None instead of a state list'
         events.append(ev)
@@ -307,6 +310,7 @@ def run(chk):
     spec_hist = {}
     for inst, cf0, ops, hist in beh:
         tid += 1
+        cf0 = dict(cf0, labels=['id', 'zero', 'id', 'str', 'zero', 'neg'][tid % 6])
         runs.append(record_abs(tid, inst, cf0, ops, unique=(tid % 3 == 0), want_aux=plan['aux']))
     n_tlc = len(runs)
     for _ in range(plan['rnd'][thorough]):
@@ -319,6 +323,12 @@ def run(chk):
         if pid == 'C07' and not cf['W']:
             cf['W'] = rng.choice([1, 2, 3])
         ops = rand_ops(rng, inst.T, cf, plan['kinds'])
+        if 'widen' in plan['kinds'] and 'W' in plan['allow'] and rng.random() < 0.35:
+            # widening stress: start with width 1 on a dense graph and widen step by step
+            inst, cf = rand_instance(rng, maxn=6, maxT=6, allow=tuple(a for a in plan['allow'] if a != 'cuts'))
+            cf['W'] = 1
+            ops = [('match', inst.T)] + [('widen', w) for w in rng.choice([[2, 3, 5], [2, 4], [3], [2, 3, 4, 6]])]
+        cf['labels'] = rng.choice(['id', 'zero', 'zero', 'str', 'neg'])
         tid += 1
         runs.append(record_abs(tid, inst, cf, ops, unique=rng.random() < 0.4, want_aux=plan['aux']))
     # 3. trace validation in batches.  Conformance with the specification's own lattice (DRIFT, a
